@@ -243,6 +243,16 @@ class DecObserver(object):
     def on_exit(self, inst, call, raised, t_entry=None):
         ci = len(self.calls)
         self.calls.append(call)
+        pm = self.pms
+        for _t, x in call["c"]:
+            adr = R.frame_address(x.upper())
+            if adr not in self.own_vals:
+                self.own_vals[adr] = dict((f, set()) for f, _fn in r2.PROVENANCE)
+            for f, fn in r2.PROVENANCE:
+                try:
+                    self.own_vals[adr][f].add(getattr(pm.commb, fn)(x))
+                except Exception:
+                    pass
         injected, self.fault_in_call = self.fault_in_call, False
         if raised is not None:
             if injected and isinstance(raised, OSError) and "pmsim injected" in str(raised):
@@ -313,18 +323,10 @@ class DecObserver(object):
                 setf = [f for f in r2.COMMB_FIELDS if rec.get(f) is not None]
                 if setf:
                     self.add("C17.d", "batch %d: %s carries Comm-B fields %r without a Comm-B reply while listed" % (ci, ku, setf))
-        # provenance of Comm-B derived values (same clause as in R2)
-        pm = self.pms
-        for u in units:
-            for _t, x in u["c"]:
-                adr = R.frame_address(x.upper())
-                if adr not in self.own_vals:
-                    self.own_vals[adr] = dict((f, set()) for f, _fn in r2.PROVENANCE)
-                for f, fn in r2.PROVENANCE:
-                    try:
-                        self.own_vals[adr][f].add(getattr(pm.commb, fn)(x))
-                    except Exception:
-                        pass
+        # provenance of Comm-B derived values (same clause as in R2); the replies
+        # themselves were recorded at the top of on_exit for *every* attempted call,
+        # because a call that failed on an injected disk fault has already applied
+        # its replies to the table
         for k, rec in table.items():
             ku = str(k).upper()
             for f, _fn in r2.PROVENANCE:
